@@ -411,6 +411,13 @@ def strip_inner_attrs(text):
 
 
 def ensure_pub(text, kind):
+    """D3 for items with inherited (private) visibility: make the item itself `pub`."""
+    kw = {"struct": "struct", "enum": "enum", "const": "const", "static": "static", "type": "type"}.get(kind)
+    if not kw:
+        return text
+    m = re.search(r"(?m)^([ \t]*)((?:pub(?:\([^)]*\))?\s+)?)" + kw + r"\b", text)
+    if m and not m.group(2):
+        return text[:m.start(2)] + "pub " + text[m.start(2):]
     return text
 
 
